@@ -21,7 +21,8 @@ META = {
     "ramp[r:=1]; mainstream[v_ctrl:=inf] is limited by v_first only; per topology class: a LinkWithVsl with "
     "infinite limits steps exactly like a Link; LinkWithVsl overrides only __init__, init_vars and the "
     "equilibrium speed"
-    "; a LinkWithVsl handles the positive_* options like a Link (clamp identity); ramp equalities decided without sign facts",
+    "; a LinkWithVsl handles the positive_* options like a Link (clamp identity); ramp equalities decided without sign facts"
+    "; the steps of the configurations that carry controls (mainstream origin, links with signs) equal the W-table",
     "explanation": "Each identity is decided by substituting the neutral value into the interpreted term and "
     "normalising; min(x, c*inf) = x needs c > 0, which comes from the fact 1 + alpha > 0.",
     "claim": "All stated neutral-control reductions and the never-raises-speed monotonicity, for all states at "
